@@ -105,6 +105,8 @@ type Ctx struct {
 	lastPanic      *PanicV
 	eof            *ErrV
 	watchSlots     map[*Value]string
+	watchMaps      map[*MapV]string
+	watchArrs      map[*idArr]string
 	NoMerge        bool
 	stopAtBoundary bool
 	axiomDone      map[int64]bool
